@@ -419,10 +419,8 @@ func init() {
 		err := fn(nil, bgp.PathAttrFlags(mustUint(a[0], 8)), mustBytes(a[1]))
 		return term.App("R", c, tErr(err))
 	}
-	handlers["upd"] = func(a []T) T {
-		b := mustBytes(a[0])
-		r := &rec{script: parseScript(a[1])}
-		d := bgp.NewUpdateDecoder[*rec](
+	newRecDecoder := func() *bgp.UpdateDecoder[*rec] {
+		return bgp.NewUpdateDecoder[*rec](
 			func(r *rec, b []byte) error {
 				r.calls = append(r.calls, term.App("wr", term.Hex(b)))
 				return r.script["wr"]
@@ -437,6 +435,9 @@ func init() {
 				r.calls = append(r.calls, term.App("nlri", term.Hex(b)))
 				return r.script["nlri"]
 			})
+	}
+	runUpd := func(d *bgp.UpdateDecoder[*rec], b []byte, script T) T {
+		r := &rec{script: parseScript(script)}
 		err := d.Decode(r, b)
 		var fe T
 		if n := bgp.UpdateNotificationFromErr(err); n != nil {
@@ -445,6 +446,19 @@ func init() {
 			fe = term.A("nil")
 		}
 		return term.App("D", term.L(r.calls...), tErr(err), fe)
+	}
+	handlers["upd"] = func(a []T) T {
+		return runUpd(newRecDecoder(), mustBytes(a[0]), a[1])
+	}
+	// updseq [P(b1,script1),…]: ONE long-lived UpdateDecoder decodes b1..bn in turn (as a session does); the result
+	// of every message must be what that message alone prescribes
+	handlers["updseq"] = func(a []T) T {
+		d := newRecDecoder()
+		var out []T
+		for _, p := range a[0].Args {
+			out = append(out, runUpd(d, mustBytes(p.Args[0]), p.Args[1]))
+		}
+		return term.L(out...)
 	}
 	handlers["bitmap"] = func(a []T) T {
 		sets := mustBytes(a[0])
